@@ -509,7 +509,7 @@ def depth(n):
 
 NEW_VALUES = {
     "strategy": ["last", "mean", "drift"], "aggfunc": ["mean", "median", "min", "max"],
-    "model": ["additive", "multiplicative"], "selected_forecaster": ["a", "b", "c"],
+    "model": ["additive", "multiplicative"], "selected_forecaster": ["m_a", "m_b", "m_c"],
 }
 
 
@@ -600,7 +600,7 @@ def oracle_nested(case, ctx):
             if not comps:
                 continue
             prefix, n, attr = comps[op["i"] % len(comps)]
-            names = ["x", "y", "z"][: 1 + op["c"] % 3]
+            names = ["n_" + ch for ch in "xyz"][: 1 + op["c"] % 3]
             new_items = [[nm, leaf_node(op["c"] + t)] for t, nm in enumerate(names)]
             r = sut(real.set_params, **{prefix + attr: [(nm, build_node(ch)) for nm, ch in new_items]})
             if isinstance(r, Raised):
@@ -613,13 +613,13 @@ def oracle_nested(case, ctx):
             if not comps:
                 continue
             prefix, n, attr = comps[op["i"] % len(comps)]
-            new_items = [["p", leaf_node(op["c"])], ["q", leaf_node(op["c"] + 1)]]
+            new_items = [["n_" + "p", leaf_node(op["c"])], ["n_" + "q", leaf_node(op["c"] + 1)]]
             repl = leaf_node(op["c"] + 2)
             r = sut(real.set_params, **{prefix + attr: [(nm, build_node(ch)) for nm, ch in new_items],
-                                        prefix + "q": build_node(repl)})
+                                        prefix + "n_q": build_node(repl)})
             if isinstance(r, Raised):
                 return [D("set_params_raises:%s" % r.type, "%s list+component: %s" % (where, r.msg))]
-            new_items[1] = ["q", repl]
+            new_items[1] = ["n_q", repl]
             n["params"][attr] = new_items
         elif kind == "clone":
             real = sut(clone, real)
@@ -644,6 +644,31 @@ def oracle_nested(case, ctx):
     return discs
 
 
+# component names as a program makes them (built at run time, several characters): not the
+# interned single-letter literals of a hand-written example
+_NAMES = ["m_" + ch for ch in "abc"]
+
+
+def enum_replace_components(tier):
+    """Every composite kind, two nesting depths: every component is replaced by name once."""
+    lf = [node("naive"), node("trend", degree=2), node("naive", strategy="mean", window_length=4)]
+    fcs = lambda ms: [[nm, m] for nm, m in zip(_NAMES, ms)]  # noqa: E731
+    roots = [
+        node("ensemble", forecasters=fcs(lf)),
+        node("multiplex", forecasters=fcs(lf), selected_forecaster=_NAMES[0]),
+        node("stack", forecasters=fcs(lf[:2]), final_regressor=node("linreg")),
+        node("pipeline", steps=[["t%d" % 0, node("deseason", sp=2)], ["t%d" % 1, node("log")], ["fc", lf[0]]]),
+        node("colens", estimators=[["m%d" % i, node("tsf", n_estimators=2 + i)] for i in range(2)]),
+        node("ensemble", forecasters=fcs([node("pipeline", steps=[["t%d" % 0, node("log")], ["fc", lf[1]]]),
+                                          node("multiplex", forecasters=fcs(lf[:2]), selected_forecaster=_NAMES[0])])),
+        node("gscv", forecaster=node("ensemble", forecasters=fcs(lf[:2])), cv=node("cv"), param_grid={"window_length": [2, 3]}),
+    ]
+    for root in roots:
+        for i in range(len(composite_paths(root))):
+            for j in range(3):
+                yield {"root": root, "ops": [{"op": "replace_component", "i": i, "j": j, "c": j + 1}, {"op": "clone", "i": 0, "j": 0, "c": 0}]}
+
+
 def _roots():
     leaf = st.sampled_from([node("naive"), node("naive", strategy="mean", window_length=4), node("trend", degree=2)])
     tr = st.sampled_from([node("deseason", sp=2), node("log"), node("adaptor", transformer=node("scaler")),
@@ -651,15 +676,15 @@ def _roots():
                           node("passthrough", transformer=node("log"), passthrough=False)])
 
     def ens(inner):
-        return st.builds(lambda ms: node("ensemble", forecasters=[[nm, m] for nm, m in zip("abc", ms)]),
+        return st.builds(lambda ms: node("ensemble", forecasters=[[nm, m] for nm, m in zip(_NAMES, ms)]),
                          st.lists(inner, min_size=1, max_size=3))
 
     def mux(inner):
-        return st.builds(lambda ms: node("multiplex", forecasters=[[nm, m] for nm, m in zip("abc", ms)], selected_forecaster="a"),
+        return st.builds(lambda ms: node("multiplex", forecasters=[[nm, m] for nm, m in zip(_NAMES, ms)], selected_forecaster=_NAMES[0]),
                          st.lists(inner, min_size=1, max_size=3))
 
     def stack(inner):
-        return st.builds(lambda ms: node("stack", forecasters=[[nm, m] for nm, m in zip("abc", ms)], final_regressor=node("linreg")),
+        return st.builds(lambda ms: node("stack", forecasters=[[nm, m] for nm, m in zip(_NAMES, ms)], final_regressor=node("linreg")),
                          st.lists(inner, min_size=1, max_size=2))
 
     def pipe(inner):
@@ -875,6 +900,7 @@ def subchecks():
                  shards_quick=4, shards_thorough=8, exhaustive=True),
         SubCheck("constructor_contract", oracle_constructor, constructor_cases(), quick=1200, thorough=8000,
                  shards_quick=4, shards_thorough=16),
+        SubCheck("replace_every_component", oracle_nested, enumerate_cases=enum_replace_components, shards_quick=4, shards_thorough=4, exhaustive=True),
         SubCheck("nested_params", oracle_nested, nested_cases(), quick=600, thorough=6000, shards_quick=4, shards_thorough=16),
         SubCheck("fitted_state", oracle_fitted_state, fitted_cases(), quick=400, thorough=5000, shards_quick=8, shards_thorough=16),
     ]
